@@ -30,8 +30,8 @@ Case families
 
 Driver protocol (lean/Driver/P08.lean):
   {"model":"c08","op":"den", <run input as for model "run">, "n":N, "runs":[{"trace":[..],"exit":k,"complete":b}..]}
-      -> {"den":[..],"closure":[..],"exit":k,"nocalc":b,"determined":b,"mon_den":[b..],"mon_pair":[b..],"reports":[[..]..],
-          "den_c":[..],"closure_c":[..],"exit_c":k,"determined_c":b,"mon_den_c":[b..]}   (_c: denotation with dynamic calc_dep edges)
+      -> {"den":[..],"closure":[..],"exit":k,"nocalc":b,"determined":b,"mon_den":[b..],"mon_pair":[b..],"reports":[[..]..]}
+  {"model":"c08","op":"job","main":{"task":{attr:id}},"worker":{"task":{attr:id}}} -> {"shipped":[attr..],"task":{attr:id}}
   {"model":"c08","op":"data","main":{"task":{attr:id},"acts":[[o,e]..]},"worker":{"task":{..},"acts":[..],"failure":id|null},
    "outs":[..]?, "errs":[..]?} -> {"shipped":[attr..],"task":{attr:id},"acts":[[o,e]..],"base_fail":id|null,"name":id}
 """
@@ -110,38 +110,24 @@ def _fill_level():
         'has the worker\'s value of every shipped attribute (values, result, executed, options, ...), keeps its own '
         'unshipped ones, gets per-action out/err position by position, and process_task_result receives the worker\'s '
         'failure.  ' +
-        ('C08_confluence (FULL statement, theorem; no NoCalc, no Acyclic hypothesis), C08_status_is_den_dyn, '
-         'C08_confluence_status_dyn, C08_complete_reports_closure_dyn, C08_complete_exit_dyn, C08_pair_monitor_holds: over '
-         'ANY task graph - task_dep, setup edges and dynamic calc_dep edges (a calc task delivers task_dep / file_dep '
-         'owners / further calc_dep when it is executed or up-to-date; the oracle calcRes is a function of the task) - '
-         'in every reachable state of the serial, thread and process transition systems of the run model (every '
-         'schedule, every numProcess, every set-iteration order, every arrival order of calc results) every finished '
-         'run_status and every terminal report (success / up-to-date / ignored / failure kind) equals the denotation '
-         'Dyn.DenOf, which depends on the task table and the oracle only (its dependency set is the least set closed '
-         'under what good calc_deps deliver); a complete run (no failure, or --continue) reports exactly the '
-         'denotational closure Dyn.DenCl of the selection; hence two complete runs under ANY two runners/schedules '
-         'report the same tasks with the same outcomes (same save/remove DB effects), leave the same run_status and '
-         'return the same exit code, and the pair monitor monC08Pair holds of them.  C08_den_dyn_noCalc: on graphs '
-         'without calc_dep Dyn.DenOf is the static DenOf of C08_status_is_den, C08_confluence_status, '
-         'C08_complete_reports_closure, C08_exit_of_reports, C08_confluence_partial, C08_den_computable, '
-         'C08_monitors_hold (kept): there, on acyclic graphs, the executable denF/denClosure/denExit evaluated by the '
-         'driver are that denotation.  C08_den_computable_dyn, C08_monitors_hold_dyn: the executable denotation with '
-         'dynamic edges (denFC / denClosureC / denExitC: bottom-up table, calc_dep sets and closure by iteration) is sound '
-         '- a determined answer IS Dyn.DenOf - and under the decidable side condition determinedC the computed closure is '
-         'Dyn.DenCl and the driver monitor monC08DenC holds of every model trace, on graphs with calc_dep too; '
-         'C08_den_total_dyn: Dyn.DenOf is total on finite graphs ranked as in C09.  ' if conf else
-         'The confluence half is covered by the correspondence and the differential monitor only.  ') +
+        ('C08_status_is_den, C08_confluence_status, C08_complete_reports_closure, C08_exit_of_reports, '
+         'C08_confluence_partial, C08_den_computable, C08_monitors_hold: over graphs with task_dep and setup edges (after '
+         'expansion: getargs, result_dep, target->file_dep), in every reachable state of the serial, thread and process '
+         'transition systems of the run model (every schedule, every numProcess, every set-iteration order) every finished '
+         'run_status and every terminal report (success / up-to-date / ignored / failure kind) equals the denotation DenOf, '
+         'which depends on the task table and the oracle only; a complete run (no failure, or --continue) reports exactly '
+         'the denotational closure of the selection; hence two complete runs under ANY two runners/schedules report the '
+         'same tasks with the same outcomes (same save/remove DB effects) and return the same exit code; on acyclic '
+         'graphs the executable denF/denClosure/denExit evaluated by the driver are that denotation.  ' if conf else
+         'The confluence half is stated (C08_confluence_full) and covered by the correspondence and the differential '
+         'monitor only.  ') +
         'Tied to doit on every run: trace acceptance of every serial/thread/process run by the M1 model, denotation vs. '
         'observed reports/closure/exit code, API-level differential test of the pickling functions, and the property '
         'statement itself evaluated on serial-vs-parallel real runs (outcomes, exit code, values, results, captured '
         'output, failure text, DB dump, file digests).')
     META['level_note'] = (
-        'Confluence is proved in full (C08_confluence covers dynamic calc_dep edges; C08_confluence_partial is the '
-        'NoCalc special case, kept).  Not proved: completeness of the executable denFC (that nTasks+1 rounds suffice on '
-        'acyclic inputs) - instead the decidable side condition determinedC is evaluated per case by the driver and K2c '
-        'is applied only where it holds (distribution: hyp_dyn_determined); cyclic inputs stay K1 + P.  (Confluence itself needs neither: a run '
-        'that ends without exception has derived every outcome it reports.)  values/results/target files '
-        'are not part of the run model (their '
+        'Partial: dynamic calc_dep edges are outside the confluence theorems (hypothesis NoCalc; C08_confluence_full '
+        'stays a def) and are covered by K1 + P only; values/results/target files are not part of the run model (their '
         'equality across runners is the differential monitor P plus data_intact for the queue crossing).  Monitor (P): '
         'Lean predicate monC08Pair for reports+exit through the driver; the data/DB/file comparison is a Python equality '
         'on canonical JSON.  Trusted: '
@@ -212,6 +198,8 @@ def _snapshot():
             for k, v in rec.items():
                 if isinstance(v, list) and len(v) == 3 and isinstance(v[0], (int, float)) and isinstance(v[2], str):
                     v = [v[1], v[2]]                 # (mtime, size, md5) -> (size, md5)
+                if k == 'deps:' and isinstance(v, list):
+                    v = sorted(v, key=str)           # file_dep is a set: saved in its iteration order
                 out[k] = v
             db[tname] = out
         snap['db'] = db
@@ -284,9 +272,22 @@ def build_ns_a(case, rec):
 # family B: data pipelines
 # ======================================================================================================
 
-def b_action(spec, idx, tname, targets, **kw):
+def b_action(spec, idx, tname, targets, dependencies, changed, **kw):
     """python-action of family B (module level: a delayed-created task is pickled whole by JobTask)"""
     a = spec
+    if a.get('deps'):
+        # what the action is told about its file dependencies (file_dep is a set: compared sorted); with `cat` also
+        # their content, so that a stale list shows in the target file and in the saved values
+        kw = dict(kw, dependencies=sorted(dependencies), changed=sorted(changed))
+        if a.get('cat'):
+            text = []
+            for f in sorted(dependencies):
+                try:
+                    with open(f) as fh:
+                        text.append(fh.read())
+                except OSError:
+                    text.append('<missing %s>' % f)
+            kw['cat'] = ''.join(text)
     if a.get('out'):
         sys.stdout.write(a['out'])
     if a.get('big'):
@@ -364,7 +365,7 @@ def _b_task_dict(t):
         d['name'] = t['name'].split(':', 1)[1]
     else:
         d['basename'] = t['name']
-    for k in ('task_dep', 'setup', 'file_dep', 'targets'):
+    for k in ('task_dep', 'setup', 'file_dep', 'targets', 'calc_dep'):
         if t.get(k):
             d[k] = list(t[k])
     upt = []
@@ -392,6 +393,10 @@ def _b_task_dict(t):
 def build_ns_b(case, rec):
     from doit.loader import create_after
     tasks = case['tasks']
+    for name, text in sorted((case.get('inputs') or {}).items()):      # plain input files (cwd = the scratch dir)
+        if not os.path.exists(name):
+            with open(name, 'w') as fh:
+                fh.write(text)
     creators = {}
     order = []
     for t in tasks:
@@ -512,6 +517,21 @@ def gen_b(rng, runner='serial', nproc=0):
     for i in range(rng.randint(0, 3)):
         tasks.append(_bt('late%d' % i, 5 + i, actions=[_act(ret=rng.choice(['none', 'dict']), vals={'l': i}, out='late%d' % i)],
                          uptodate='saver', task_dep=(['total'] if rng.random() < 0.5 else [])))
+    # calc_dep: `scan*` deliver file_dep / task_dep at run time (the main process extends the consumer's attributes
+    # AFTER the worker processes were forked); consumers record the `dependencies` / `changed` their action was given
+    inputs = {}
+    if rng.random() < 0.6:
+        inputs = {'header.txt': 'HEADER\n', 'a.txt': 'AAA\n', 'b.txt': 'BBB\n', 'c.txt': 'CCC\n'}
+        for i in range(rng.randint(1, 2)):
+            files = rng.sample(['a.txt', 'b.txt', 'c.txt'], rng.randint(1, 3))
+            res = {'file_dep': files}
+            if rng.random() < 0.4:
+                res['task_dep'] = [rng.choice(['prep', 'noisy'])]
+            tasks.append(_bt('scan%d' % i, 50 + i, actions=[_act(ret='dict', vals=res, out='scan%d' % i)],
+                             uptodate=rng.choice(['none', 'none', 'saver'])))
+            tasks.append(_bt('concat%d' % i, 60 + i, calc_dep=['scan%d' % i], file_dep=['header.txt'], targets=['all%d.txt' % i],
+                             actions=[_act(ret='dict', deps=True, cat=True, write=True, echo_got=True, vals={'c': i})],
+                             task_dep=(['total'] if rng.random() < 0.3 else [])))
     cont = rng.random() < 0.6
     if cont:
         # failures of every kind (only with --continue: otherwise the run is cut short and nothing is compared)
@@ -537,7 +557,7 @@ def gen_b(rng, runner='serial', nproc=0):
         rng.shuffle(keys)
     tasks = [t for k in keys for t in units[k]]
     return {'fam': 'B', 'tasks': tasks, 'sel': None, 'cont': cont, 'always': False, 'runner': runner, 'nproc': nproc,
-            'prerun': rng.random() < 0.35}
+            'prerun': rng.random() < 0.35, 'inputs': inputs}
 
 
 # ======================================================================================================
@@ -700,8 +720,8 @@ def render(case):
         for t in case['tasks']:
             if t['kind'] == 'group':
                 continue
-            lines.append('  %-10s creator=%s delayed=%s uptodate=%s getargs=%s task_dep=%s result_dep=%s closures=%s actions=%s' % (
-                t['name'], t['creator'], t['delayed'], t['uptodate'], t['getargs'], t['task_dep'], t['result_dep'],
+            lines.append('  %-10s creator=%s delayed=%s uptodate=%s getargs=%s task_dep=%s calc_dep=%s file_dep=%s result_dep=%s closures=%s actions=%s' % (
+                t['name'], t['creator'], t['delayed'], t['uptodate'], t['getargs'], t['task_dep'], t.get('calc_dep'), t.get('file_dep'), t['result_dep'],
                 t['closures'], [(a['t'], a.get('ret', 'none'), bool(a.get('out')), bool(a.get('err')), a.get('big', 0))
                                 for a in t['actions']]))
         return '\n'.join(lines)
@@ -800,21 +820,6 @@ def eval_group(case, variants, st, shrink_s=8.0, accept=True):
                     st.divergence({'case': _strip(c), 'den': ans['den'], 'closure': ans['closure'], 'den_exit': ans['exit'],
                                    'reports': s['reports'], 'exit': o['exit'], 'complete': s['complete']},
                                   'K2: reports / closure / exit code of the %s run differ from the denotation' % c['runner'])
-    # K2c: denotation with dynamic calc_dep edges (hypothesis: determined_c, decidable; C08_monitors_hold_dyn)
-    if ans is not None and fam == 'A' and 'determined_c' in ans:
-        kind = 'nocalc' if ans.get('nocalc') else 'calc'
-        st.count('hyp_dyn_determined:%s:%s' % (kind, bool(ans.get('determined_c'))))
-        if ans.get('determined_c'):
-            for (c, o, s), ok in zip(runs, ans['mon_den_c']):
-                if o['err'] is not None:
-                    continue
-                st.count('den_c_checked:%s' % kind)
-                if not ok:
-                    st.divergence({'case': _strip(c), 'den': ans['den_c'], 'closure': ans['closure_c'],
-                                   'den_exit': ans['exit_c'], 'reports': s['reports'], 'exit': o['exit'],
-                                   'complete': s['complete']},
-                                  'K2c: reports / closure / exit code of the %s run differ from the denotation with '
-                                  'dynamic calc_dep edges' % c['runner'])
     # P: serial vs each variant
     if not ref['complete']:
         st.count('pair_skipped_reference_cut_short')
@@ -873,6 +878,15 @@ def _count_case(st, case, ref):
                 st.count('B:getargs:%s' % ('group' if g[1] == 'parts' else 'task'))
             if t['result_dep']:
                 st.count('B:result_dep')
+            if t.get('calc_dep'):
+                st.count('B:calc_dep_consumer')
+            for a in t['actions']:
+                if a.get('deps'):
+                    st.count('B:action_records_dependencies')
+                if isinstance(a.get('vals'), dict) and 'file_dep' in a['vals']:
+                    st.count('B:calc_result:file_dep:%d' % len(a['vals']['file_dep']))
+                    if 'task_dep' in a['vals']:
+                        st.count('B:calc_result:task_dep')
             if t['closures']:
                 st.count('B:closures')
     else:
@@ -918,7 +932,8 @@ def shrink_pair(base, var, diff, budget_s):
                 if t['kind'] == 'group':
                     continue
                 name = t['name']
-                used = any(name in x['task_dep'] or name in x['setup'] or name in x['result_dep'] or x.get('delayed') == name
+                used = any(name in x['task_dep'] or name in x['setup'] or name in x['result_dep'] or x.get('delayed') == name or name in (x.get('calc_dep') or [])
+                           or any(name in ((a.get('vals') or {}).get('task_dep') or []) for a in x['actions'])
                            or any(g[1] == name or (g[1] == t.get('group') and len([y for y in cur['tasks'] if y.get('group') == t.get('group') and y['kind'] == 'sub']) == 1)
                                   for g in x['getargs'])
                            for x in cur['tasks'] if x is not t)
@@ -1076,19 +1091,110 @@ def data_impl(c):
     return {'shipped': shipped, 'task': out_task, 'acts': [[a.out, a.err] for a in main_acts], 'base_fail': base_fail}
 
 
+JOB_KEYS = FIXED + ['file_dep', 'targets', 'dep_changed', 'verbosity', 'doc', 'calc_dep', 'pos_arg_val', 'setup_tasks']
+
+
+def job_case(rng):
+    """main process -> worker process (JobTaskPickle): the worker's Task is its fork-time copy (ids 51..99), the main
+    side has meanwhile changed any of its attributes (ids 1..50: file_dep / task_dep / calc_dep extended by calc_dep
+    results, options and dep_changed set by select_task, values ...)"""
+    main = {k: rng.randint(1, 50) for k in JOB_KEYS}
+    work = {k: rng.randint(51, 99) for k in JOB_KEYS}
+    for k in JOB_KEYS:
+        if rng.random() < 0.3:
+            work[k] = main[k]          # attribute not changed since the fork
+    work['name'] = main['name']
+    return {'job': True, 'main': {'task': main}, 'worker': {'task': work}}
+
+
+def _mk_task(rec, tag):
+    from doit.task import Task
+    t = Task('t%d' % rec['name'], None)
+    for k, v in rec.items():
+        if k in ('name', '_action_instances'):
+            continue
+        t.__dict__[k] = [(tag, k, v)] if k == 'value_savers' else (tag, k, v)
+    t.__dict__['_action_instances'] = [('acts', rec['_action_instances'])]
+    return t
+
+
+def _ids_of(t, rec):
+    out = {}
+    for k in rec:
+        v = t.__dict__.get(k)
+        if k == 'name':
+            out[k] = rec['name'] if t.name == 't%d' % rec['name'] else -1
+        elif k == '_action_instances':
+            out[k] = v[0][1] if isinstance(v, list) and v and isinstance(v[0], tuple) else -1
+        elif k == 'value_savers':
+            out[k] = v[0][2] if isinstance(v, list) and v and isinstance(v[0], tuple) else -1
+        else:
+            out[k] = v[2] if isinstance(v, tuple) and len(v) == 3 else -1
+    return out
+
+
+def job_impl(c):
+    """the real JobTaskPickle + what execute_task_subprocess does with it in a worker process"""
+    common.use_repo()
+    from doit.runner import JobTaskPickle
+    main_t = _mk_task(c['main']['task'], 'v')
+    work_t = _mk_task(c['worker']['task'], 'v')
+    job = JobTaskPickle(main_t)
+    shipped = sorted(k for k in job.task_dict if k in c['main']['task'])
+    assert job.name == main_t.name
+    work_t.update_from_pickle(job.task_dict)           # `if self.Child == Process:` branch of execute_task_subprocess
+    return {'shipped': shipped, 'task': _ids_of(work_t, c['main']['task'])}
+
+
+def _job_intact_py(c, got):
+    """statement of C08_job_pickle_intact on the implementation: every attribute pickle_safe_dict ships has the main
+    side's value in the worker, the seven unshipped ones are the worker's own"""
+    if 'exc' in got:
+        return False
+    unshipped = ('_actions', '_action_instances', 'clean_actions', 'teardown', 'custom_title', 'value_savers', 'uptodate')
+    for k, v in c['main']['task'].items():
+        want = c['worker']['task'][k] if k in unshipped else v
+        if got['task'].get(k) != want:
+            return False
+    return True
+
+
 def eval_data_batch(batch):
     st = common.WorkerStats()
     common.use_repo()
     cases = []
     for seed in batch['seeds']:
         cases.append(data_case(random.Random(seed)))
+        cases.append(job_case(random.Random(seed ^ 0x5a5a)))
     cases = batch.get('cases', []) + cases
-    reqs = [dict(c, model='c08', op='data') for c in cases]
+    reqs = [dict(c, model='c08', op='job' if c.get('job') else 'data') for c in cases]
     try:
         answers = common.drv_batch(reqs)
     except Exception as ex:  # noqa
         answers = [{'error': str(ex)[:100]}] * len(reqs)
     for c, a in zip(cases, answers):
+        if c.get('job'):
+            st.case({'job': c}, nontrivial=True)
+            st.count('K3:job_cases')
+            st.count('K3:job:attrs_changed_since_fork:%d' % min(9, sum(1 for k in c['main']['task']
+                                                                     if c['main']['task'][k] != c['worker']['task'][k]) // 3 * 3))
+            if 'error' in a:
+                st.count('driver_unavailable')
+                continue
+            try:
+                got = job_impl(c)
+            except Exception as ex:  # noqa
+                got = {'exc': type(ex).__name__, 'msg': str(ex)[:200]}
+            want = {'shipped': sorted(a['shipped']), 'task': a['task']}
+            if got != want:
+                w = {'data_case': c, 'impl': got, 'model': want}
+                if not _job_intact_py(c, got):
+                    st.violation(w, 'monitor', 'C08 job_pickle_intact: an attribute of the main-side task did not reach the '
+                                 'worker process (API level: JobTaskPickle / pickle_safe_dict / update_from_pickle): %s' % sorted(
+                                     k for k in c['main']['task'] if (got.get('task') or {}).get(k) != a['task'].get(k))[:6])
+                else:
+                    st.divergence(w, 'K3: JobTaskPickle differs from workerReceivesPickle')
+            continue
         st.case({'data': c}, nontrivial=bool(c['worker']['acts']))
         st.count('K3:main_acts:%d' % len(c['main']['acts']))
         st.count('K3:len_%s' % ('equal' if len(c['main']['acts']) == len(c['worker']['acts']) else 'differ'))
@@ -1129,8 +1235,7 @@ def _data_intact_py(c, got):
 # batches
 # ======================================================================================================
 
-# calc_dep edges are inside the theorems (C08_confluence) and the denotation monitor (K2c) since wave 3
-A_KNOBS = {'n_max': 8, 'p_dup_sel': 0.0, 'p_cont': 0.6, 'weights': {'calc_dep': 9}}
+A_KNOBS = {'n_max': 8, 'p_dup_sel': 0.0, 'p_cont': 0.6, 'weights': {'calc_dep': 3}}
 
 
 def gen_variants(rng, case, kinds):
@@ -1333,15 +1438,10 @@ def run(ctx, scale=1.0):
     # process-mode runs fork real worker processes: not possible inside the (daemonic) pool workers
     for st in fork_map(eval_batch, cmain + main, procs=4):
         st.merge_into(ctx)
-    ctx.extra['hypotheses'] = {'NoCalc+acyclic (static executable denotation denF / K2 / monC08Den)': ctx.dist.get('hyp_nocalc_acyclic:True', 0),
-                               'not NoCalc+acyclic': ctx.dist.get('hyp_nocalc_acyclic:False', 0),
-                               'determinedC, graph with calc_dep (denFC / K2c / monC08DenC)': ctx.dist.get('hyp_dyn_determined:calc:True', 0),
-                               'determinedC, graph without calc_dep': ctx.dist.get('hyp_dyn_determined:nocalc:True', 0),
-                               'not determinedC (cyclic / cut): K1 + P only': ctx.dist.get('hyp_dyn_determined:calc:False', 0) + ctx.dist.get('hyp_dyn_determined:nocalc:False', 0)}
-    ctx.extra['partial_theorems'] = ['C08_confluence_partial (hypothesis NoCalc) is subsumed by the theorem C08_confluence '
-                                     '(any graph, dynamic calc_dep edges); C08_den_computable / C08_monitors_hold (static '
-                                     'denF, NoCalc + Acyclic) are complemented by C08_den_computable_dyn / '
-                                     'C08_monitors_hold_dyn (denFC, any graph, decidable side condition determinedC)']
+    ctx.extra['hypotheses'] = {'NoCalc+acyclic (confluence theorems / K2)': ctx.dist.get('hyp_nocalc_acyclic:True', 0),
+                               'not satisfied (calc_dep present): P and K1 only': ctx.dist.get('hyp_nocalc_acyclic:False', 0)}
+    ctx.extra['partial_theorems'] = ['C08_confluence_partial (hypothesis NoCalc); C08_confluence_full (dynamic calc_dep '
+                                     'edges) is a def only, covered by K1 + P']
 
 
 def search(ctx):
@@ -1354,6 +1454,20 @@ def replay(ctx, data):
     common.use_repo()
     if 'data_case' in w:
         c = w['data_case']
+        if c.get('job'):
+            print('API-level job case (main -> worker process, JobTaskPickle):', json.dumps(c))
+            a = common.drv_batch([dict(c, model='c08', op='job')])[0]
+            try:
+                got = job_impl(c)
+            except Exception as ex:  # noqa
+                got = {'exc': type(ex).__name__, 'msg': str(ex)[:200]}
+            print('model (workerReceivesPickle):', json.dumps(a, sort_keys=True))
+            print('implementation              :', json.dumps(got, sort_keys=True))
+            bad = sorted(k for k in c['main']['task'] if (got.get('task') or {}).get(k) != a['task'].get(k))
+            print('attributes that differ:', bad)
+            ok = _job_intact_py(c, got)
+            print('job_pickle_intact on the implementation:', ok)
+            return ok and (not bad or data.get('failed') != 'correspondence')
         print('API-level data case:', json.dumps(c))
         a = common.drv_batch([dict(c, model='c08', op='data')])[0]
         try:
@@ -1385,13 +1499,9 @@ def replay(ctx, data):
         print('exit=%s err=%s reports=%s' % (o['exit'], o['err'], s['reports']))
         ans = common.drv_batch([den_request(c, [(o, s)])])[0]
         print('denotation:', ans.get('den'), 'closure', ans.get('closure'), 'exit', ans.get('exit'), 'mon_den', ans.get('mon_den'))
-        print('denotation (dynamic calc_dep edges):', ans.get('den_c'), 'closure', ans.get('closure_c'), 'exit', ans.get('exit_c'),
-              'determined', ans.get('determined_c'), 'mon_den_c', ans.get('mon_den_c'))
         ok = True
         if ans.get('nocalc') and ans.get('determined') and o['err'] is None:
             ok = bool(ans['mon_den'][0])
-        if ans.get('determined_c') and o['err'] is None:
-            ok = ok and bool(ans['mon_den_c'][0])
         if c.get('fam', 'A') == 'A':
             a = runlib.ask_model([(c, o)])[0]
             print('M1 accepts the trace:', a.get('accepted'), a.get('error', ''))
